@@ -485,6 +485,10 @@ func (r *Runtime) objectproto_toString(call FunctionCall) Value {
 
 func (r *Runtime) objectproto_toLocaleString(call FunctionCall) Value {
 	toString := toMethod(r.getVStr(call.This, "toString"))
+	if toString == nil {
+		// Invoke(O, "toString") on a value without a toString method (e.g. Object.create(null))
+		panic(r.NewTypeError("toString is not a function"))
+	}
 	return toString(FunctionCall{This: call.This})
 }
 
